@@ -41,7 +41,12 @@ class Variables:
                 assert set_expressions, "SET without values in expression(s) is unexpected."
                 eq = set_expressions[0].this
                 name = eq.this.sql()
-                value = eq.args.get("expression").sql()
+                value_expr = eq.args.get("expression")
+                # the value is substituted into Snowflake SQL text: render it in that dialect (so backslashes and
+                # line breaks in strings survive) and keep a compound expression atomic wherever it is referenced
+                if isinstance(value_expr, (exp.Binary, exp.Unary, exp.Predicate)) and not isinstance(value_expr, exp.Paren):
+                    value_expr = exp.paren(value_expr)
+                value = value_expr.sql(dialect="snowflake")
                 self._set(name, value)
             else:
                 # Haven't been able to produce this in tests yet due to UNSET being parsed as an Alias expression.
